@@ -145,6 +145,14 @@ def gen_cases(tier, seed):
             extra = {e: {"len": rng.choice(lv)} for e in base["edges"] if rng.random() < 0.8}
         elif c.get("lenattr_only"):
             extra = {e: {"len": rng.choice([2, 5, 9])} for e in base["edges"] if rng.random() < 0.8}
+        if rng.random() < 0.08 and not garbage:
+            # the same instance at another order of magnitude (exact in binary / as ints): the statement is about every positive flow
+            mag = rng.choice(["1e6", "1e9", "2^-20"]) if base["wt"] == "float" else rng.choice(["1e6", "1e9"])
+            fac = {"1e6": 10 ** 6, "1e9": 10 ** 9, "2^-20": 2.0 ** -20}[mag]
+            base = dict(base); base["flow"] = {e: (f * fac if base["wt"] == "int" or mag != "2^-20" else f * fac) for e, f in base["flow"].items()}
+            if base["wt"] == "float":
+                base["flow"] = {e: float(f) for e, f in base["flow"].items()}
+            c["mag"] = mag
         c["spec"] = I.spec_of(base, drop_attr=drop, garbage=garbage, extra_eattr=extra)
         cases.append(c)
     return cases
@@ -248,6 +256,11 @@ def run_case(case):
         if case.get("planted") and not cons and not ign and got > case["planted"]:
             viol.append({"sig": "C03/more-than-planted", "msg": f"{got} > planted {case['planted']}; {desc}"})
     key = hashlib.sha1(desc.encode()).hexdigest()[:14]
+    if case.get("mag"):
+        # every disagreement on a magnitude-shifted instance is keyed by that magnitude (numerical range of the MILP layer)
+        obs["c03.magnitude_cases"] += 1
+        for v in viol:
+            v["sig"] = f"C03/numerical-range/{case['mag']}/" + v["sig"][4:]
     return {"viol": viol, "obs": dict(obs), "side": side, "nontrivial": bool(kstar and kstar >= 2), "keys": [key] if kstar and kstar >= 2 else [],
             "sample": {"edges": [(u, v, d.get("flow")) for u, v, d in G.edges(data=True)][:14], "mode": mode, "wt": wt, "cons": case["cons"], "ignore": case["ignore"],
                        "oo": case["oo"], "reference_optimum": kstar, "library": (len(res["sol"]["paths"]) if res.get("sol") else None)}}
